@@ -8,7 +8,7 @@
                    the back) built in.
     Quantification: ALL adapter lists, ALL closures (arbitrary Gallina functions), ALL
     consumers, ALL source lists — no depth or length bound. *)
-From KV Require Import Base.Prelude Model.Dsl Spec.Dsl Proofs.DslFusion Proofs.DslStd Model.DslPulls Proofs.DslPullsProofs.
+From KV Require Import Base.Prelude Model.Dsl Spec.Dsl Proofs.DslFusion Proofs.DslStd Model.DslPulls Proofs.DslPullsProofs Proofs.DslPullsAll.
 
 (** step 1: the expansion computes the compositional semantics — every chain, also the
     known-finding class *)
@@ -69,6 +69,15 @@ Example C10_take_pulls_witness :
   /\ std_take_pulls 2 [DInt 1; DInt 2; DInt 0] = 2%nat.
 Proof. exact pulls_witness. Qed.
 
+(** ... and [take] is the only place: a chain that cannot break out of the loop nest (no take,
+    take_while, zip) under for_each / collect pulls the whole source, as the std chain does *)
+Theorem C10_nostop_pulls_all : forall ms src,
+  forallb nostop ms = true -> pulled ms CForEach src = length src.
+Proof. exact dsl_nostop_pulls_all. Qed.
+Example C10_nostop_witness :
+  forallb nostop [ACopied; AFilter (fun _ => true); ASkip 1; AFlatMap (fun v => [v; v]); ARev] = true.
+Proof. exact nostop_witness. Qed.
+
 Print Assumptions C10_macro_eq_doc.
 Print Assumptions C10_doc_eq_std.
 Print Assumptions C10_dsl_eq_std.
@@ -80,3 +89,5 @@ Print Assumptions C10_take_pulls_eq_std_iff.
 Print Assumptions C10_take_pulls_one_more.
 Print Assumptions C10_take_pulls_std_refuted.
 Print Assumptions C10_take_pulls_witness.
+Print Assumptions C10_nostop_pulls_all.
+Print Assumptions C10_nostop_witness.
